@@ -17,7 +17,9 @@
    bad_record_mac, shown for contrast. */
 #include "pair.h"
 
-static int run(int32 ver, psCipher16_t cipher, const char *label)
+/* what: 0 = inject a plaintext CCS after record 1, 1 = replace record 2 by a
+   plaintext close_notify */
+static int run(int32 ver, psCipher16_t cipher, const char *label, int what)
 {
     peer_t cli, svr;
     unsigned char alert[7] = { 0x15, 0x03, 0x03, 0x00, 0x02, 0x01, 0x00 };
@@ -35,47 +37,125 @@ static int run(int32 ver, psCipher16_t cipher, const char *label)
     n2 = sendApp(&cli, (const unsigned char *) "part-2.", 7, &w2, 0);
     (void) n2;
 
-    /* attacker: lets record 1 through, injects a plaintext CCS, then replaces
-       record 2 by an unprotected close_notify */
     feedBytes(&svr, w1, n1, r);
     printf("record 1 -> rc=%d delivered '%.*s'\n", r->lastRc, r->dataLen, r->data);
-
     memset(r, 0, sizeof(*r));
-    feedBytes(&svr, ccs, sizeof(ccs), r);
-    outLen = matrixSslGetOutdata(svr.ssl, &out);
-    printf("injected plaintext ChangeCipherSpec -> rc=%d err=%d, server outdata=%d bytes, session error flag=%d\n",
-        r->lastRc, r->err, outLen, (svr.ssl->flags & SSL_FLAGS_ERROR) ? 1 : 0);
-    if (r->err >= 0 && outLen == 0 && !(svr.ssl->flags & SSL_FLAGS_ERROR))
+    if (what == 0)
     {
-        printf("VIOLATION: %s: unprotected ChangeCipherSpec accepted on an established connection (no alert)\n", label);
-        violation = 1;
+        feedBytes(&svr, ccs, sizeof(ccs), r);
+        outLen = matrixSslGetOutdata(svr.ssl, &out);
+        printf("injected plaintext ChangeCipherSpec -> rc=%d err=%d, server outdata=%d bytes, session error flag=%d\n",
+            r->lastRc, r->err, outLen, (svr.ssl->flags & SSL_FLAGS_ERROR) ? 1 : 0);
+        if (r->err >= 0 && outLen == 0 && !(svr.ssl->flags & SSL_FLAGS_ERROR))
+        {
+            printf("VIOLATION: %s: unprotected ChangeCipherSpec accepted on an established connection (no alert)\n", label);
+            violation = 1;
+        }
+        else
+        {
+            printf("OK: %s: unprotected ChangeCipherSpec after the handshake ends the session with an alert\n", label);
+        }
+        return violation;
     }
-    else
-    {
-        return 0; /* session is dead (as it should be) */
-    }
-
-    memset(r, 0, sizeof(*r));
     feedBytes(&svr, alert, sizeof(alert), r);
     outLen = matrixSslGetOutdata(svr.ssl, &out);
     printf("forged plaintext close_notify -> rc=%d gotAlert=%d level=%d desc=%d, server outdata=%d bytes, closed flag=%d error flag=%d\n",
         r->lastRc, r->gotAlert, r->alertLevel, r->alertDesc, outLen,
         (svr.ssl->flags & SSL_FLAGS_CLOSED) ? 1 : 0, (svr.ssl->flags & SSL_FLAGS_ERROR) ? 1 : 0);
-    if (r->gotAlert && r->alertLevel == 1 && r->alertDesc == 0 && outLen == 0)
+    if (r->gotAlert || outLen == 0 || !(svr.ssl->flags & SSL_FLAGS_ERROR))
     {
-        printf("VIOLATION: %s: unauthenticated 7-byte record accepted as the peer's close_notify; "
-            "application got 'part-1;' + orderly closure, 'part-2.' suppressed, no fatal alert\n", label);
+        printf("VIOLATION: %s: unauthenticated 7-byte record accepted as the peer's alert; "
+            "application got 'part-1;' + closure, 'part-2.' suppressed, no fatal alert\n", label);
         violation = 1;
+    }
+    else
+    {
+        printf("OK: %s: unprotected alert record after the handshake ends the session with a fatal alert\n", label);
     }
     return violation;
 }
 
+/* Controls: what must keep working */
+static int controls(void)
+{
+    peer_t cli, svr;
+    sslSessOpts_t so, co;
+    psCipher16_t c[1] = { 0x1301 };
+    unsigned char ccs[6] = { 0x14, 0x03, 0x03, 0x00, 0x01, 0x01 };
+    unsigned char hsFail[7] = { 0x15, 0x03, 0x03, 0x00, 0x02, 0x02, 0x28 };
+    unsigned char *w, *w2;
+    int n, i, bad = 0;
+    feed_t *r = calloc(1, sizeof(*r));
+
+    /* 1. a genuine (encrypted) close_notify is still reported as closure */
+    if (setupPair(&cli, &svr, SSL_FLAGS_TLS_1_3, 0x1301, 0) < 0) return -1;
+    matrixSslEncodeClosureAlert(cli.ssl);
+    n = takeOutdata(&cli, &w, 0);
+    feedBytes(&svr, w, n, r);
+    printf("control 1: genuine close_notify (%d wire bytes): gotAlert=%d level=%d desc=%d\n", n, r->gotAlert, r->alertLevel, r->alertDesc);
+    if (!r->gotAlert || r->alertDesc != 0) { printf("VIOLATION: control 1 failed\n"); bad = 1; }
+
+    /* 2. middlebox compatibility: plaintext CCS records in front of the
+          client's and of the server's encrypted handshake flights */
+    memset(&so, 0, sizeof(so)); memset(&co, 0, sizeof(co));
+    so.versionFlag = co.versionFlag = SSL_FLAGS_TLS_1_3;
+    cli.name = "client"; svr.name = "server";
+    loadRsaKeys(&svr.keys); loadRsaKeys(&cli.keys);
+    matrixSslNewServerSession(&svr.ssl, svr.keys, NULL, &so);
+    matrixSslNewClientSession(&cli.ssl, cli.keys, NULL, c, 1, certCb, NULL, NULL, NULL, &co);
+    for (i = 0; i < 6; i++)
+    {
+        int first = 1;
+        while ((n = takeOutdata(&cli, &w, 0)) > 0)
+        {
+            w2 = malloc(n + 6); memcpy(w2, ccs, 6); memcpy(w2 + 6, w, n);
+            memset(r, 0, sizeof(*r));
+            if (i > 0 && first) feedBytes(&svr, w2, n + 6, r); else feedBytes(&svr, w, n, r);
+            first = 0;
+        }
+        while ((n = takeOutdata(&svr, &w, 0)) > 0)
+        {
+            memset(r, 0, sizeof(*r));
+            /* the server flight: SH record, then a CCS, then the rest */
+            if (i == 0 && n > 5)
+            {
+                int shLen = 5 + ((w[3] << 8) | w[4]);
+                w2 = malloc(n + 6); memcpy(w2, w, shLen); memcpy(w2 + shLen, ccs, 6); memcpy(w2 + shLen + 6, w + shLen, n - shLen);
+                feedBytes(&cli, w2, n + 6, r);
+            }
+            else feedBytes(&cli, w, n, r);
+        }
+    }
+    memset(r, 0, sizeof(*r));
+    n = sendApp(&cli, (const unsigned char *) "ping", 4, &w, 0);
+    if (n > 0) feedBytes(&svr, w, n, r);
+    printf("control 2: handshake with compatibility CCS records: complete client=%d server=%d, data delivered=%d\n",
+        matrixSslHandshakeIsComplete(cli.ssl), matrixSslHandshakeIsComplete(svr.ssl), r->dataLen);
+    if (r->dataLen != 4) { printf("VIOLATION: control 2 failed\n"); bad = 1; }
+
+    /* 3. a plaintext alert from a client that could not process the server's
+          first flight (server already has its handshake read keys on) is
+          still reported */
+    loadRsaKeys(&svr.keys); loadRsaKeys(&cli.keys);
+    matrixSslNewServerSession(&svr.ssl, svr.keys, NULL, &so);
+    matrixSslNewClientSession(&cli.ssl, cli.keys, NULL, c, 1, certCb, NULL, NULL, NULL, &co);
+    n = takeOutdata(&cli, &w, 0); memset(r, 0, sizeof(*r)); feedBytes(&svr, w, n, r);
+    n = takeOutdata(&svr, &w, 0);
+    memset(r, 0, sizeof(*r)); feedBytes(&svr, hsFail, 7, r);
+    printf("control 3: plaintext handshake_failure during the handshake: gotAlert=%d level=%d desc=%d\n", r->gotAlert, r->alertLevel, r->alertDesc);
+    if (!r->gotAlert || r->alertDesc != 0x28) { printf("VIOLATION: control 3 failed\n"); bad = 1; }
+    if (!bad) printf("OK: controls passed\n");
+    return bad;
+}
+
 int main(void)
 {
-    int v13, v12;
+    int a, b, c, d;
     matrixSslOpen();
-    v13 = run(SSL_FLAGS_TLS_1_3, 0x1301, "TLS1.3 AES-128-GCM");
-    v12 = run(SSL_FLAGS_TLS_1_2, 0x009c, "TLS1.2 AES-128-GCM (contrast)");
-    printf("TLS1.3 violation=%d, TLS1.2 violation=%d\n", v13, v12);
-    return (v13 > 0 || v12 > 0) ? 1 : 0;
+    a = run(SSL_FLAGS_TLS_1_3, 0x1301, "TLS1.3 AES-128-GCM", 0);
+    b = run(SSL_FLAGS_TLS_1_3, 0x1301, "TLS1.3 AES-128-GCM", 1);
+    c = run(SSL_FLAGS_TLS_1_2, 0x009c, "TLS1.2 AES-128-GCM (contrast)", 0);
+    d = controls();
+    printf("TLS1.3 ccs violation=%d, TLS1.3 alert violation=%d, TLS1.2 violation=%d, controls bad=%d\n", a, b, c, d);
+    return (a || b || c || d) ? 1 : 0;
 }
